@@ -532,6 +532,9 @@ pub struct Asm<'a> {
     const_busy: Vec<usize>,
     /// when false, labels and `$` are not available yet (phase 1)
     addresses_known: bool,
+    /// label values assumed while the layout is computed (fixed-point iteration / certificate); they are checked
+    /// against the addresses the layout really yields before anything is concluded from them
+    label_guess: Option<HashMap<usize, Z>>,
 }
 
 fn collect_vars(e: &E, out: &mut Vec<String>) {
@@ -610,6 +613,12 @@ impl<'a> Asm<'a> {
         match self.syms[si].kind.clone() {
             SymKind::Label => {
                 if !self.addresses_known {
+                    if let Some(g) = &self.label_guess {
+                        return match g.get(&si) {
+                            Some(z) => Ok(RVal::Int(z.clone(), None)),
+                            None => unspec("label without an assumed address"),
+                        };
+                    }
                     return unspec("address-dependent");
                 }
                 match self.label_val.get(&si) {
@@ -770,6 +779,14 @@ impl<'a> Asm<'a> {
     }
 
     fn static_size(&mut self, matches: &[Match], ctx: &[String]) -> R<usize> {
+        // assumed label values must not leak into the notion of a *static* size
+        let saved = self.label_guess.take();
+        let r = self.static_size_inner(matches, ctx);
+        self.label_guess = saved;
+        r
+    }
+
+    fn static_size_inner(&mut self, matches: &[Match], ctx: &[String]) -> R<usize> {
         // address-independent: evaluate exactly
         self.addresses_known = false;
         let exact = self.choose(matches, ctx, None);
@@ -825,21 +842,163 @@ fn to_usize_z(z: &Z) -> Option<usize> {
 }
 
 pub fn assemble(prog: &Prog) -> RefOut {
-    assemble_with(prog, None)
+    assemble_fixpoint(prog)
 }
 
 /// `claimed`: sizes (bits) of the instruction items, in program order, as some assembler run
 /// claims them. Then nothing is predicted: the layout is derived from those sizes and every
 /// instruction must re-select exactly that size as its unique smallest encoding (DESIGN §3.5).
 pub fn assemble_with(prog: &Prog, claimed: Option<&[usize]>) -> RefOut {
-    match assemble_inner(prog, claimed) {
+    match assemble_inner(prog, claimed, None) {
         Ok(ok) => RefOut::Ok(ok),
         Err(Stop::Error(s)) => RefOut::Error(s),
         Err(Stop::Unspec(s)) => RefOut::Unspec(s),
     }
 }
 
-fn assemble_inner(prog: &Prog, claimed: Option<&[usize]>) -> R<RefOk> {
+/// Certificate with claimed label values: the layout directives (`#res`, `#align`, `#addr`, unsized data) are
+/// evaluated at the claimed label values; the layout that results must give every label exactly its claimed value
+/// (otherwise Error), and then everything is re-derived as in `assemble_with`.
+pub fn assemble_certified(prog: &Prog, claimed_sizes: Option<&[usize]>, claimed_labels: &HashMap<String, Z>) -> RefOut {
+    match assemble_inner(prog, claimed_sizes, Some((claimed_labels, true))) {
+        Ok(ok) => RefOut::Ok(ok),
+        Err(Stop::Error(s)) => RefOut::Error(s),
+        Err(Stop::Unspec(s)) => RefOut::Unspec(s),
+    }
+}
+
+/// Like `assemble`, but a layout directive (`#res`, `#align`, `#addr`) may depend on labels.
+/// 1. The layout is iterated (directives that cannot be evaluated or fail under the merely assumed label values are
+///    skipped in that round) from two starting assumptions — no label has a value / every label = 0xfff0 — until the
+///    assumed label values reproduce themselves; both must arrive at the same labels.
+/// 2. Perturbation test for circularity: each label-dependent directive in turn is forced to another value, the rest
+///    of the system is iterated to its fixed point again, and the directive's own expression is re-evaluated there. If
+///    its value moved, the directive depends on its own effect (`#addr L - 4` with `L` right behind it): such a
+///    program has many self-consistent layouts and gets no verdict.
+/// Anything else (no convergence, disagreement, unsized data that depends on labels) is Unspecified as well.
+pub fn assemble_fixpoint(prog: &Prog) -> RefOut {
+    let first = assemble_with(prog, None);
+    match &first {
+        RefOut::Unspec(w) if w == "layout directive depends on an address" => {}
+        _ => return first,
+    }
+    let label_names = match label_names(prog) {
+        Ok(n) => n,
+        Err(_) => return first,
+    };
+    // iterate to a fixed point; returns (labels, result, directive values) or a reason
+    let iterate = |start: Option<i64>, force: Option<(usize, Z)>| -> Result<(HashMap<String, Z>, Result<RefOk, String>, HashMap<usize, Z>), String> {
+        let mut guess: HashMap<String, Z> = match start {
+            None => HashMap::new(),
+            Some(v) => label_names.iter().map(|n| (n.clone(), Z::from(v))).collect(),
+        };
+        for _round in 0..12 {
+            let mut io = IterOut { force: force.clone(), ..Default::default() };
+            let r = assemble_inner2(prog, None, Some((&guess, false)), &mut io);
+            let Some(got) = io.labels else { return Err("no layout under an assumed labelling".into()) };
+            if got == guess {
+                if io.tolerated {
+                    return Err("a layout directive keeps failing at the layout the iteration settles on".into());
+                }
+                return match r {
+                    Ok(ok) => Ok((guess, Ok(ok), io.dir_vals)),
+                    Err(Stop::Error(e)) => Ok((guess, Err(e), io.dir_vals)),
+                    Err(Stop::Unspec(w)) => Err(w),
+                };
+            }
+            guess = got;
+        }
+        Err("no self-consistent layout within 12 rounds".into())
+    };
+    let (l1, r1, vals) = match iterate(None, None) {
+        Ok(x) => x,
+        Err(w) => return RefOut::Unspec(format!("label-dependent layout: {}", w)),
+    };
+    let (l2, r2, _) = match iterate(Some(0xfff0), None) {
+        Ok(x) => x,
+        Err(w) => return RefOut::Unspec(format!("label-dependent layout: {}", w)),
+    };
+    if l1 != l2 {
+        return RefOut::Unspec("label-dependent layout: more than one self-consistent layout".into());
+    }
+    // perturbation test on every directive whose expression mentions a name
+    for (idx, it) in prog.items.iter().enumerate() {
+        let (etext, is_align) = match it {
+            Item::Res(e) | Item::Addr(e) => (e, false),
+            Item::Align(e) => (e, true),
+            _ => continue,
+        };
+        let Ok(e) = refparse::parse_all(etext) else { continue };
+        let mut vars = vec![];
+        collect_vars(&e, &mut vars);
+        if vars.is_empty() {
+            continue;
+        }
+        let Some(v) = vals.get(&idx) else { return RefOut::Unspec("label-dependent layout: a directive was never evaluated".into()) };
+        let forced = if is_align { v * 2 } else { v + 1 };
+        let moved = match iterate(None, Some((idx, forced))) {
+            // the rest of the system settled: what would the directive's own expression say there?
+            Ok((_, _, vals2)) => vals2.get(&idx) != Some(v),
+            // forcing made the rest fail or diverge: cannot show independence
+            Err(_) => true,
+        };
+        if moved {
+            return RefOut::Unspec("label-dependent layout: a layout directive depends on its own effect (or independence cannot be shown)".into());
+        }
+    }
+    match (r1, r2) {
+        (Ok(a), Ok(b)) if a.bits == b.bits && a.symbols == b.symbols => RefOut::Ok(a),
+        (Err(e), Err(_)) => RefOut::Error(e),
+        _ => RefOut::Unspec("label-dependent layout: the two iterations disagree".into()),
+    }
+}
+
+/// full names of the labels of a program (declaration pass only)
+fn label_names(prog: &Prog) -> R<Vec<String>> {
+    let mut names = vec![];
+    let mut ctx: Vec<String> = vec![];
+    for it in &prog.items {
+        if let Item::Label(n) = it {
+            let level = n.chars().take_while(|c| *c == '.').count();
+            let base = n.trim_start_matches('.').to_string();
+            if level > ctx.len() {
+                return err("label skips a nesting level");
+            }
+            ctx.truncate(level);
+            ctx.push(base);
+            names.push(ctx.join("."));
+        } else if let Item::Const(n, _) = it {
+            let level = n.chars().take_while(|c| *c == '.').count();
+            if level > ctx.len() {
+                return err("constant skips a nesting level");
+            }
+            ctx.truncate(level);
+            ctx.push(n.trim_start_matches('.').to_string());
+        }
+    }
+    Ok(names)
+}
+
+fn assemble_inner(prog: &Prog, claimed: Option<&[usize]>, guess: Option<(&HashMap<String, Z>, bool)>) -> R<RefOk> {
+    let mut scratch = IterOut::default();
+    assemble_inner2(prog, claimed, guess, &mut scratch)
+}
+
+/// what one round of the fixed-point iteration reports besides its result
+#[derive(Default)]
+struct IterOut {
+    /// label values the layout of this round yields (set as soon as the layout is complete)
+    labels: Option<HashMap<String, Z>>,
+    /// some layout directive failed under the merely assumed label values and was skipped in this round
+    tolerated: bool,
+    /// value every layout directive evaluated to in this round (item index -> value), before any forcing
+    dir_vals: HashMap<usize, Z>,
+    /// in: replace the value of the directive at this item index (perturbation test)
+    force: Option<(usize, Z)>,
+}
+
+fn assemble_inner2(prog: &Prog, claimed: Option<&[usize]>, guess: Option<(&HashMap<String, Z>, bool)>, iter_out: &mut IterOut) -> R<RefOk> {
+    let tolerant = matches!(guess, Some((_, false)));
     // rules
     let mut defs = vec![];
     for d in &prog.ruledefs {
@@ -868,7 +1027,7 @@ fn assemble_inner(prog: &Prog, claimed: Option<&[usize]>) -> R<RefOk> {
             }
         }
     }
-    let mut a = Asm { prog, defs, syms: vec![], by_path: HashMap::new(), ctx_at: vec![], label_val: HashMap::new(), const_val: HashMap::new(), const_busy: vec![], addresses_known: false };
+    let mut a = Asm { prog, defs, syms: vec![], by_path: HashMap::new(), ctx_at: vec![], label_val: HashMap::new(), const_val: HashMap::new(), const_busy: vec![], addresses_known: false, label_guess: None };
 
     // declarations and scopes
     let mut ctx: Vec<String> = vec![];
@@ -922,6 +1081,17 @@ fn assemble_inner(prog: &Prog, claimed: Option<&[usize]>) -> R<RefOk> {
         }
     }
     let user_banks = banks.len() > 1;
+    if let Some((g, _)) = guess {
+        let mut m: HashMap<usize, Z> = HashMap::new();
+        for (si, sy) in a.syms.iter().enumerate() {
+            if let SymKind::Label = sy.kind {
+                if let Some(z) = g.get(&sy.path.join(".")) {
+                    m.insert(si, z.clone());
+                }
+            }
+        }
+        a.label_guess = Some(m);
+    }
     // every `#bank` must name a defined bank (banks may be defined later in the file)
     for it in &prog.items {
         if let Item::Bank(n) = it {
@@ -1028,7 +1198,8 @@ fn assemble_inner(prog: &Prog, claimed: Option<&[usize]>) -> R<RefOk> {
                                 },
                                 Ok(_) => return err("data element is not an integer"),
                                 Err(Stop::Error(e)) => return Err(Stop::Error(e)),
-                                Err(Stop::Unspec(_)) => return unspec("unsized data element depends on an address"),
+                                Err(Stop::Unspec(w)) if w == "address-dependent" => return unspec("unsized data element depends on an address"),
+                                Err(Stop::Unspec(w)) => return Err(Stop::Unspec(w)),
                             }
                         }
                     };
@@ -1042,56 +1213,77 @@ fn assemble_inner(prog: &Prog, claimed: Option<&[usize]>) -> R<RefOk> {
                     Err(PErr::Fail) => return err("malformed directive expression"),
                     Err(PErr::Unmodelled(w)) => return unspec(w),
                 };
+                let force_now = iter_out.force.clone();
+                let mut dir_vals_now: HashMap<usize, Z> = HashMap::new();
+                let r: R<()> = (|| {
                 a.addresses_known = false;
-                let v = match a.eval_in(&e, &ctx, None, &Env::new()) {
-                    Ok(RVal::Int(z, _)) => z,
-                    Ok(_) => return err("directive needs an integer"),
-                    Err(Stop::Unspec(_)) => return unspec("layout directive depends on an address"),
-                    Err(e) => return Err(e),
-                };
-                item_pos.insert(idx, (cur, banks[cur].cursor));
-                match it {
-                    Item::Res(_) => {
-                        if v < Z::from(0) {
-                            return err("negative reservation");
+                    let here_now: R<Z> = if banks[cur].cursor % banks[cur].bits == 0 { Ok(&banks[cur].addr + banks[cur].cursor / banks[cur].bits) } else { err("position is not aligned to an address") };
+                    let uses_here = { let mut vs = vec![]; collect_vars(&e, &mut vs); vs.iter().any(|v| v == "$" || v == "pc") };
+                    let v = match a.eval_in(&e, &ctx, if uses_here && a.label_guess.is_some() { Some(&here_now) } else { None }, &Env::new()) {
+                        Ok(RVal::Int(z, _)) => z,
+                        Ok(_) => return err("directive needs an integer"),
+                        Err(Stop::Unspec(w)) if w == "address-dependent" => return unspec("layout directive depends on an address"),
+                        Err(Stop::Unspec(w)) => return Err(Stop::Unspec(w)),
+                        Err(e) => return Err(e),
+                    };
+                    dir_vals_now.insert(idx, v.clone());
+                    let v = match &force_now {
+                        Some((fi, fz)) if *fi == idx => fz.clone(),
+                        _ => v,
+                    };
+                    item_pos.insert(idx, (cur, banks[cur].cursor));
+                    match it {
+                        Item::Res(_) => {
+                            if v < Z::from(0) {
+                                return err("negative reservation");
+                            }
+                            if v.bits() > 20 {
+                                return unspec("huge reservation (C19)");
+                            }
+                            let n = to_usize_z(&v).unwrap() * banks[cur].bits;
+                            placements.push(Placement { item: idx, sub: 0, bank: cur, pos: banks[cur].cursor, size: n, written: false });
+                            banks[cur].cursor += n;
                         }
-                        if v.bits() > 20 {
-                            return unspec("huge reservation (C19)");
-                        }
-                        let n = to_usize_z(&v).unwrap() * banks[cur].bits;
-                        placements.push(Placement { item: idx, sub: 0, bank: cur, pos: banks[cur].cursor, size: n, written: false });
-                        banks[cur].cursor += n;
-                    }
-                    Item::Align(_) => {
-                        if v <= Z::from(0) {
-                            return err("invalid alignment");
-                        }
-                        if v.bits() > 20 {
-                            return unspec("huge alignment (C19)");
-                        }
-                        let n = to_usize_z(&v).unwrap();
-                        let abs = &banks[cur].addr * banks[cur].bits + banks[cur].cursor;
-                        let rem = to_usize_z(&(((&abs % n) + n) % n)).unwrap();
-                        if rem != 0 {
-                            banks[cur].cursor += n - rem;
-                        }
-                    }
-                    _ => {
-                        if v < banks[cur].addr {
-                            return err("address below the bank start");
-                        }
-                        let delta = &v - &banks[cur].addr;
-                        if delta.bits() > 24 {
-                            return unspec("huge address (C19)");
-                        }
-                        let d = to_usize_z(&delta).unwrap() * banks[cur].bits;
-                        if let Some(sz) = banks[cur].size {
-                            if d >= sz {
-                                return err("address beyond the bank");
+                        Item::Align(_) => {
+                            if v <= Z::from(0) {
+                                return err("invalid alignment");
+                            }
+                            if v.bits() > 20 {
+                                return unspec("huge alignment (C19)");
+                            }
+                            let n = to_usize_z(&v).unwrap();
+                            let abs = &banks[cur].addr * banks[cur].bits + banks[cur].cursor;
+                            let rem = to_usize_z(&(((&abs % n) + n) % n)).unwrap();
+                            if rem != 0 {
+                                banks[cur].cursor += n - rem;
                             }
                         }
-                        banks[cur].cursor = d;
+                        _ => {
+                            if v < banks[cur].addr {
+                                return err("address below the bank start");
+                            }
+                            let delta = &v - &banks[cur].addr;
+                            if delta.bits() > 24 {
+                                return unspec("huge address (C19)");
+                            }
+                            let d = to_usize_z(&delta).unwrap() * banks[cur].bits;
+                            if let Some(sz) = banks[cur].size {
+                                if d >= sz {
+                                    return err("address beyond the bank");
+                                }
+                            }
+                            banks[cur].cursor = d;
+                        }
                     }
+    
+                    Ok(())
+                })();
+                iter_out.dir_vals.extend(dir_vals_now);
+                match r {
+                    Ok(()) => {}
+                    Err(Stop::Error(_)) if tolerant => iter_out.tolerated = true,
+                    Err(Stop::Unspec(w)) if tolerant && w == "label without an assumed address" => iter_out.tolerated = true,
+                    Err(e) => return Err(e),
                 }
             }
         }
@@ -1104,6 +1296,15 @@ fn assemble_inner(prog: &Prog, claimed: Option<&[usize]>) -> R<RefOk> {
         }
         a.label_val.insert(*si, &banks[*b].addr + pos / banks[*b].bits);
     }
+    iter_out.labels = Some(a.label_val.iter().map(|(si, z)| (a.syms[*si].path.join("."), z.clone())).collect());
+    if let (Some((_, true)), Some(g)) = (guess, &a.label_guess) {
+        for (si, z) in &a.label_val {
+            if g.get(si) != Some(z) {
+                return err("a claimed label value is not the address at which the following item lies");
+            }
+        }
+    }
+    a.label_guess = None;
     a.addresses_known = true;
 
     // phase 3: exact evaluation
